@@ -360,6 +360,11 @@ class Terms:
                     return ("const", v.size)
                 if isinstance(v, StructConst) and e.attr in ("pack", "unpack", "unpack_from"):
                     return ("const", StructMethod(v, e.attr))
+            # a field of a record built in place: SessionKeys(a2c_key=x, c2a_key=y).a2c_key is x (NamedTuple / plain dataclass
+            # of the package without a hand-written __init__)
+            fv = _record_field(p, base, e.attr)
+            if fv is not None:
+                return fv
             return ("attr", base, e.attr)
         if isinstance(e, ast.Call):
             return self._call(cfg, nid, e, env, depth, guard)
@@ -662,6 +667,36 @@ def _binop(op, l, r) -> tuple:
         except Exception:
             pass
     return ("binop", name, l, r)
+
+
+def _record_fields(p, cls_q: str):
+    """field names, in order, of a NamedTuple subclass or @dataclass of the package that has no __init__ / __new__ /
+    __post_init__ of its own; None for other classes"""
+    c = p.classes.get(cls_q)
+    if c is None or any(m in c.methods for m in ("__init__", "__new__", "__post_init__")):
+        return None
+    is_nt = any(b.endswith("NamedTuple") for b in c.bases)
+    is_dc = any((isinstance(d, ast.Name) and d.id == "dataclass") or (isinstance(d, ast.Attribute) and d.attr == "dataclass")
+                or (isinstance(d, ast.Call) and ((isinstance(d.func, ast.Name) and d.func.id == "dataclass") or (isinstance(d.func, ast.Attribute) and d.func.attr == "dataclass")))
+                for d in c.node.decorator_list)
+    if not (is_nt or is_dc) or (is_dc and len(c.bases) > 0 and c.bases != ["object"]):
+        return None
+    return [st.target.id for st in c.node.body if isinstance(st, ast.AnnAssign) and isinstance(st.target, ast.Name)]
+
+
+def _record_field(p, base, name: str):
+    if not (base[0] == "call" and len(base) >= 4 and base[1][0] == "glob" and base[1][1] in p.classes):
+        return None
+    fields = _record_fields(p, base[1][1])
+    if not fields or name not in fields or any(a[0] == "star" for a in base[2]):
+        return None
+    kw = dict(base[3])
+    if name in kw:
+        return kw[name]
+    i = fields.index(name)
+    if i < len(base[2]):
+        return base[2][i]
+    return None
 
 
 def _fstr(parts: tuple) -> tuple:
